@@ -27,6 +27,8 @@ def main():
         kinds = ", ".join(ev.get("checks", {}).get(prop, {}).get("kinds", []))
         clean = lambda s, n: re.sub(r"\s+", " ", s).replace("|", "/")[:n]
         status = "" if ev.get("caught") else "**NOT CAUGHT** "
+        if not ev.get("caught") and ev.get("demo_patched_exit") == 0:
+            status = "(equivalent on the repaired tree) "
         print("| %s %s | %s | %s%s %s | %s |" % (name, clean(m["summary"], 115), clean(m["needs_to_manifest"], 115),
                                                status, prop, clean(kinds, 95), notes.get(name, "")))
 
